@@ -171,8 +171,8 @@ def _geo_law(c):
 fn('GeometricReservoirStorage.update', F + 'geometric_reservoir_storage.py', self_cls='Storage',
    params={'x': InstT, 'y': TVal},
    requires={'kind': lambda c: c.old.kind == 3}, implements='Storage.update', mirrors=_mirror,
-   ensures={'inclusion_law': _geo_law,
-            # p = 1: every new observation is stored (TreeStorage relies on it)
+   body_ensures={'inclusion_law': _geo_law},
+   ensures={# p = 1: every new observation is stored (TreeStorage relies on it)
             'p_one_stores': lambda c: _newest_if(c, c.old.constant_probability >= 1),
             'p_const': lambda c: c.new.constant_probability == c.old.constant_probability},
    ghost_update=_hist_step, modifies=['_storage_x', '_storage_y', 'ids'])
@@ -198,7 +198,7 @@ fn('UniformReservoirStorage.__init__', F + 'uniform_reservoir_storage.py', kind=
    ensures={'empty': _empty,
             'cfg': lambda c: land(c.new.store_targets == c.a.store_targets, c.new.size == c.a.size,
                                   c.new.stored_samples == 0),
-            'algoL_init': _algoL_init})
+            }, body_ensures={'algoL_init': _algoL_init})
 
 
 def _algoL_step(c):
@@ -236,6 +236,6 @@ def _algoL_step(c):
 fn('UniformReservoirStorage.update', F + 'uniform_reservoir_storage.py', self_cls='Storage',
    params={'x': InstT, 'y': TVal},
    requires={'kind': lambda c: c.old.kind == 2}, implements='Storage.update', mirrors=_mirror,
-   ensures={'algoL_step': _algoL_step},
+   body_ensures={'algoL_step': _algoL_step},
    ghost_update=_hist_step,
    modifies=['_storage_x', '_storage_y', 'stored_samples', '_algo_wt', '_algo_l_counter', 'ids'])
